@@ -159,8 +159,9 @@ func runRaceChild(op string) string {
 			}
 		}
 	}
+	// the proxy is configured as a deployment would be: an advertised address, peers, a write-consistency override
 	env, err := e2e.Start(e2e.Options{Hosts: 3, NumConns: 2, MaxVersion: primitive.ProtocolVersion4, ReconnectBase: 10 * time.Millisecond, ReconnectMax: 40 * time.Millisecond,
-		HeartBeat: 50 * time.Millisecond, IdleTimeout: 2 * time.Second})
+		HeartBeat: 50 * time.Millisecond, IdleTimeout: 2 * time.Second, RPCAddr: "127.0.0.1", HasOverride: true, Unsupported: []uint16{4, 8}, Override: 6})
 	if err != nil {
 		return "env-error:" + err.Error()
 	}
@@ -246,6 +247,10 @@ func runRaceChild(op string) string {
 						m = &message.Query{Query: "SELECT * FROM system.peers", Options: opts}
 					case x == 9:
 						m = &message.Query{Query: "INSERT INTO ks.t (k, v) VALUES (1, now())", Options: opts}
+					case x == 10: // a write at a consistency the override rewrites, and a local read
+						m = &message.Query{Query: fmt.Sprintf("INSERT INTO ks.t (k, v) VALUES (%d, 'some value of some length %d')", k, k), Options: &message.QueryOptions{Consistency: primitive.ConsistencyLevelQuorum}}
+					case x == 11:
+						m = &message.Query{Query: "SELECT rpc_address, host_id, data_center FROM system.local", Options: opts}
 					default:
 						m = &message.Query{Query: "SELECT v FROM ks.t WHERE k = 1", Options: opts}
 					}
